@@ -57,7 +57,11 @@ def table_node_contract(resolver, inner, outer, outer_table):
     load their own")."""
     from a816.parse.nodes import TableNode
     from script import Table
+    previous = inner.table
     n = TableNode("font.tbl", resolver)
     check("loaded_into_the_current_scope", isinstance(inner.table, Table) and inner.table is not outer_table)
+    # a scope that already loaded a table gets a NEW table object: the earlier table (which text nodes expanded before it still hold) is neither
+    # modified nor merged into the new one
+    check("a_second_table_replaces_the_first", previous is None or (inner.table is not previous and len(previous.lookup) == 1 and len(inner.table.lookup) == 0))
     check("enclosing_scope_keeps_its_table", outer.table is outer_table)
     check("scope_unchanged", resolver.current_scope is inner)
